@@ -64,6 +64,8 @@ J gen_forward(uint64_t seed, const J &ov);
 World *build_forward(const J &plan);
 J gen_probe(uint64_t seed, const J &ov);
 World *build_probe(const J &plan);
+J gen_fakesrv(uint64_t seed, const J &ov);
+World *build_fakesrv(const J &plan);
 
 static J gen_plan_inner(const std::string &scen, uint64_t seed, const J &ov);
 J gen_plan(const std::string &scen, uint64_t seed, const J &ov)
@@ -84,6 +86,7 @@ static J gen_plan_inner(const std::string &scen, uint64_t seed, const J &ov)
 	if (scen == "sessions") return gen_sessions(seed, ov);
 	if (scen == "forward") return gen_forward(seed, ov);
 	if (scen == "probe") return gen_probe(seed, ov);
+	if (scen == "fakesrv") return gen_fakesrv(seed, ov);
 	J p = J::obj(); p.set("scenario", scen); p.set("seed", (long long)seed); p.set("error", "unknown scenario");
 	return p;
 }
@@ -97,6 +100,7 @@ static World *build_world(const J &plan)
 	if (scen == "sessions") return build_sessions(plan);
 	if (scen == "forward") return build_forward(plan);
 	if (scen == "probe") return build_probe(plan);
+	if (scen == "fakesrv") return build_fakesrv(plan);
 	return nullptr;
 }
 
